@@ -28,7 +28,7 @@ abbrev Path := List Step
 def errName : Err → String
   | .keyError => "KeyError" | .indexError => "IndexError" | .attributeError => "AttributeError"
   | .typeError => "TypeError" | .valueError => "ValueError" | .fault => "Fault"
-  | .zeroDiv => "ZeroDivisionError"
+  | .zeroDiv => "ZeroDivisionError" | .overflow => "OverflowError"
 
 /-- owner chain without the container: `d['n']['x']` ↦ `[d['n'], d['n']['x']]` -/
 def chain : Path → List Path
@@ -54,9 +54,21 @@ def exprDeps (e : Expr) : List Path := uniq ((leafRefs e).flatMap chainR)
 def isNum : Val → Bool
   | .int _ => true | .nan => true | _ => false
 
-/-- the Python operator itself on the manager suite's values; `//` and `%` by zero raise -/
+/-- an int that `float()` cannot take: mixing it with NaN (a float) raises `OverflowError` -/
+def tooBig (v : Val) : Bool :=
+  match v with
+  | .int x => decide (x.natAbs ≥ 2 ^ 1024 - 2 ^ 970)
+  | _ => false
+
+def hasNan (a b : Val) : Bool :=
+  (match a with | .nan => true | _ => false) || (match b with | .nan => true | _ => false)
+
+/-- the Python operator itself on the manager suite's values; `//` and `%` by zero raise, and so does the
+    conversion of an int beyond the float range when the other operand is a float (NaN) -/
 def pyBinRaw (op : String) (a b : Val) : Except Err Val :=
   if !(isNum a && isNum b) then .error .typeError else
+  if hasNan a b && (tooBig a || tooBig b) && (op = "Add" || op = "Sub" || op = "Mul" || op = "Floordiv" || op = "Mod") then
+    .error .overflow else
   match op with
   | "Add" => (match a, b with | .int x, .int y => .ok (.int (x + y)) | _, _ => .ok .nan)
   | "Sub" => (match a, b with | .int x, .int y => .ok (.int (x - y)) | _, _ => .ok .nan)
